@@ -440,6 +440,18 @@ def eval_small(ctx, cases):
             if ex is not None:
                 ctx.hist("match/oracle:" + ex[0])
                 if io_["r"] != ex[1]:
+                    if len(c["terms"]) > 1 and not c.get("_shrunk") and ctx.histogram.get("match/shrink-attempts", 0) < 8:
+                        # shrink: single terms and two-term sub-chains, canonical spacing; report the smallest that still fails
+                        ctx.hist("match/shrink-attempts")
+                        ts = c["terms"]
+                        subs = [[t] for t in ts] + [[a, b] for i, a in enumerate(ts) for b in ts[i + 1:]]
+                        variants = [{"kind": "match", "v": c["v"], "expr": " || ".join("%s %s" % (o, v) for o, v in sub),
+                                     "terms": sub, "pure": True, "_shrunk": True} for sub in subs]
+                        before = len(ctx.failures)
+                        eval_small(ctx, variants)
+                        if any(f["clause"] == ex[0] for f in ctx.failures[before:]):
+                            ctx.failures[before:] = [f for f in ctx.failures[before:] if f["clause"] == ex[0]][:1]
+                            continue
                     ctx.fail(ex[0], inp, io_["r"], mo, note="terms compare %s in the implementation's order; expected %s" % (io_["terms"], ex[1]))
         else:
             mo = {"err": ans["err"]} if "err" in ans else {"idx": ans["idx"]}
@@ -699,6 +711,7 @@ def search(ctx):
 
 
 def replay(ctx, rp):
+    common.import_eups()
     c = rp["input"]
     if c["kind"] == "names":
         names = c["names"]
@@ -718,5 +731,5 @@ def replay(ctx, rp):
     mo = (dis[0]["model_output"] if dis else (sub_ctx.failures[0]["model_output"] if sub_ctx.failures else None))
     if io_ is None:
         out = impl_small_forked([c], 1)[0]
-        io_ = mo = out.get("r", {k: out[k] for k in ("idx", "err") if k in out})
+        io_ = mo = out.get("r", {k: out[k] for k in ("idx", "err", "latest", "matches") if k in out})
     return {"input": c, "impl_output": io_, "model_output": mo, "agree": not dis, "fails": fails}
